@@ -152,7 +152,25 @@ pub fn child(args: &[String]) {
         let mut err = std::io::sink();
         let mut pc = 0usize;
         let hexs = |s: &str| -> String { s.bytes().map(|b| format!("{:02x}", b)).collect() };
+        // T: the state itself, read through the State API: selected stack, then every non-empty stack with the Debug text
+        // of each of its elements (what any faithful display of the state has to show)
+        fn truth(s: &mut UnOptState) -> String {
+            let hexs = |s: &str| -> String { s.bytes().map(|b| format!("{:02x}", b)).collect() };
+            let mut idx = s.get_all_stack_index();
+            idx.sort_unstable();
+            let mut parts = Vec::new();
+            for i in idx {
+                let st = s.get_stack(i);
+                if st.is_empty() {
+                    continue;
+                }
+                let vals: Vec<String> = st.iter().map(|x| hexs(&format!("{:?}", x))).collect();
+                parts.push(format!("{}:{}", i, vals.join(".")));
+            }
+            format!("{} {}", s.current_stack(), parts.join(";"))
+        }
         println!("D {}", hexs(&format!("{:?}", state)));
+        println!("T {}", truth(&mut state));
         for _ in 0..maxsteps {
             if pc >= code.len() {
                 break;
@@ -161,6 +179,7 @@ pub fn child(args: &[String]) {
                 Ok((st, npc)) => {
                     println!("D {}", hexs(&format!("{:?}", st)));
                     state = st;
+                    println!("T {}", truth(&mut state));
                     pc = npc;
                 }
                 Err(_) => break,
@@ -345,7 +364,11 @@ pub fn handle_run(toks: &[&str]) -> String {
 // dbgstates <maxsteps> <prog>: comma-separated hex Debug strings of the states after 0..n steps
 pub fn handle_dbgstates(toks: &[&str]) -> String {
     let (lines, _, _) = run_child("dbgstates", toks, 20000);
-    lines.iter().filter_map(|l| l.strip_prefix("D ")).collect::<Vec<_>>().join(",")
+    format!(
+        "{}|{}",
+        lines.iter().filter_map(|l| l.strip_prefix("D ")).collect::<Vec<_>>().join(","),
+        lines.iter().filter_map(|l| l.strip_prefix("T ")).collect::<Vec<_>>().join(",")
+    )
 }
 
 // run a library-level operation in a child process (it may call process::exit or read stdin); the child prints "R <result>"
